@@ -45,6 +45,29 @@ fn codecs<B: Backend>() -> Vec<Codec> {
                     if back.to_string() != d {
                         return Some((d, "<serde round-trip differs>".into()));
                     }
+                    // ... whichever way the deserializer hands the string over: owned (from_value), transient
+                    // (from_reader, a JSON string spelled with an escape), or through serde's own value deserializers
+                    {
+                        use serde::de::IntoDeserializer;
+                        use serde::de::value::{BorrowedStrDeserializer, Error as VErr, StrDeserializer, StringDeserializer};
+                        let escaped = match d.chars().next() {
+                            Some(c) if c.is_ascii() => format!("\"\\u{:04x}{}\"", c as u32, &d[1..]),
+                            _ => j.clone(),
+                        };
+                        let paths: [(&str, Option<String>); 6] = [
+                            ("from_value", serde_json::from_value::<$ty>(serde_json::Value::String(d.clone())).ok().map(|x| x.to_string())),
+                            ("from_reader", serde_json::from_reader::<_, $ty>(j.as_bytes()).ok().map(|x| x.to_string())),
+                            ("escaped-json-string", serde_json::from_str::<$ty>(&escaped).ok().map(|x| x.to_string())),
+                            ("StringDeserializer", <$ty as serde::Deserialize>::deserialize(IntoDeserializer::<VErr>::into_deserializer(d.clone()) as StringDeserializer<VErr>).ok().map(|x| x.to_string())),
+                            ("StrDeserializer", <$ty as serde::Deserialize>::deserialize(IntoDeserializer::<VErr>::into_deserializer(d.as_str()) as StrDeserializer<VErr>).ok().map(|x| x.to_string())),
+                            ("BorrowedStrDeserializer", <$ty as serde::Deserialize>::deserialize(BorrowedStrDeserializer::<VErr>::new(d.as_str())).ok().map(|x| x.to_string())),
+                        ];
+                        for (name, got) in paths {
+                            if got.as_deref() != Some(d.as_str()) {
+                                return Some((d, format!("<serde path {name} gives {got:?}>")));
+                            }
+                        }
+                    }
                     Some((d, j))
                 }),
                 extra: Box::new($extra),
@@ -409,7 +432,7 @@ pub fn run(opts: &Opts) {
     for_backends!(opts, backend, opts, &mut rep);
     rep.set(
         "rule",
-        json!("per FromStr/Display pair (KeyText x5, KeyId x3, PieWrappedKey x2, PasswordWrappedKey x2, SealedKey, EncryptedToken, SignedToken) and backend: all 64^2 + 64^3 final blocks over the base64url alphabet (exhaustive on KeyText<Local>, KeyId<Local> and one token type in quick, on every type in thorough; sampled otherwise), all one-character tails, every position x every byte 0..0x7f and multibyte UTF-8, every prefix length of 8 blocks, padding / '+' '/' / whitespace / extra segments / header variants, tokens with 0..3 dots, tokens of typed footer types (Json<Value>, a lossy footer type) whose footer is spelled non-canonically, over-long strings whose tail repeats parts of the string itself, every byte string of length 0..300 through from_raw_bytes, random hostile strings; acceptance must equal the independent strict codec's verdict, accepted strings must re-serialise identically (tokens: modulo one trailing dot), serde form must equal Display; distinct = distinct (type, string). Inputs are valid UTF-8 only (FromStr takes &str)"),
+        json!("per FromStr/Display pair (KeyText x5, KeyId x3, PieWrappedKey x2, PasswordWrappedKey x2, SealedKey, EncryptedToken, SignedToken) and backend: all 64^2 + 64^3 final blocks over the base64url alphabet (exhaustive on KeyText<Local>, KeyId<Local> and one token type in quick, on every type in thorough; sampled otherwise), all one-character tails, every position x every byte 0..0x7f and multibyte UTF-8, every prefix length of 8 blocks, padding / '+' '/' / whitespace / extra segments / header variants, tokens with 0..3 dots, tokens of typed footer types (Json<Value>, a lossy footer type) whose footer is spelled non-canonically, over-long strings whose tail repeats parts of the string itself, every byte string of length 0..300 through from_raw_bytes, random hostile strings; acceptance must equal the independent strict codec's verdict, accepted strings must re-serialise identically (tokens: modulo one trailing dot), serde form must equal Display and deserialize back through six deserializer paths (from_str, from_value, from_reader, escaped JSON string, serde's String/Str/BorrowedStr value deserializers); distinct = distinct (type, string). Inputs are valid UTF-8 only (FromStr takes &str)"),
     );
     rep.finish(opts);
 }
